@@ -308,9 +308,17 @@ impl<T: RealNumber, M: Matrix<T>> InteriorPointOptimizer<T, M> {
             }
 
             if lsiter == max_ls_iter {
-                return Err(Failed::fit(
-                    "Exceeded maximum number of iteration for interior point optimizer",
-                ));
+                if !(gdx.is_finite() && phi.is_finite()) {
+                    return Err(Failed::fit(
+                        "Exceeded maximum number of iteration for interior point optimizer",
+                    ));
+                }
+                // the inexact Newton direction was not a descent direction: keep the current
+                // iterate (what the search amounts to once the step has shrunk to nothing)
+                s = T::zero();
+                neww.copy_from(&w);
+                newu.copy_from(&u);
+                newf.copy_from(&f);
             }
 
             w.copy_from(&neww);
